@@ -219,6 +219,21 @@ CLAIMS = {
         "technique": "TLA+ symbolic specification of the tests; TLC-enumerated cases replayed on the code; TLC trace validation",
         "design_ref": "6/C19",
     },
+    "C11": {
+        "text": ("Hill climbing is a TLA+ step machine over an uninterpreted integer local-score table plus a per-edge structure prior (spec/SearchLib.tla, "
+                 "Gen_C11H.tla). Legality is defined on the result graph (DAG, fixed/black/white lists, in-degree bound, tabu); TLC proves the path "
+                 "formulation (flip legal iff no OTHER directed path) and 'legal moves = admissible neighbouring DAGs' on every DAG on <=4 nodes and "
+                 "checks on every behaviour (every start DAG x option palettes x every tie) that the contract holds in every state and that self-stopped "
+                 "runs with tabu length 0 are local optima. Terminal states are replayed on HillClimbSearch through a table-backed StructureScore; "
+                 "recorded calls (integer tables and real k2/bdeu/bds/bic/aic) are validated iteration by iteration by TLC (logged legal set = spec legal "
+                 "set, same deltas, applied move is an arg-max with delta >= eps, termination justified, contract and unchanged start_dag). "
+                 "ExhaustiveSearch: TLC enumerates all DAGs (<=4 nodes; 5 nodes as an invariant over 29 281 states): maximality, every DAG once, sorted. "
+                 "TreeSearch: all spanning trees (<=6 nodes), maximum-weight ones and their orientation from every root; Chow-Liu and TAN; mutual "
+                 "information as exact LogForm; object reuse; auto root."),
+        "note": "Scores decomposable (values are C10's concern); start graph already satisfies lists and in-degree; eps > 0; weights strictly positive; real scores compared at 8e-6; small-scope exhaustive (<=4 nodes) plus seeded sampling (<=6).",
+        "technique": "TLA+ hill-climbing step machine model-checked by TLC; behaviours replayed and recorded runs validated by TLC",
+        "design_ref": "6/C11",
+    },
 }
 
 NOT_APPLICABLE = {}
